@@ -29,13 +29,14 @@ def build_model(c):
     os.makedirs(outdir, exist_ok=True)
     extract_v = os.path.join(common.COQ, "Extract", "C08.v")
     run_ml = os.path.join(common.VERIF, "ocaml", "c08", "run.ml")
-    srcs = [os.path.join(common.COQ, "Generated", "SandboxTables.v"), os.path.join(common.COQ, "Model", "Sandbox.v"), extract_v, run_ml]
+    srcs = [os.path.join(common.COQ, "Generated", "SandboxTables.v"), os.path.join(common.COQ, "Model", "Sandbox.v"),
+            os.path.join(common.COQ, "Model", "Cmdline.v"), os.path.join(common.COQ, "Model", "Family.v"), extract_v, run_ml]
     h = common.file_hash(srcs)
     stamp, exe = os.path.join(outdir, "stamp"), os.path.join(outdir, "run")
     with common.Lock("ocaml-c08"):
         if os.path.exists(exe) and os.path.exists(stamp) and open(stamp).read() == h:
             return 0, "cached", exe
-        rc, out = common.coq_make(["Model/Sandbox.vo"])
+        rc, out = common.coq_make(["Model/Sandbox.vo", "Model/Cmdline.vo", "Model/Family.vo"])
         if rc != 0:
             return rc, out, exe
         with common.Lock("coq"):
@@ -124,6 +125,29 @@ def compare_names(cfg, tcfg, runtime):
 
 def names_in(entry):
     return set(entry.split())
+
+
+def family_origin(hist):
+    """Fallback when the extracted model could not be run: does the target of a family history descend from
+    NewZlispSandbox?  (The verdict normally comes from origin_of of the extracted model.)"""
+    ops, _, t = hist.rpartition("@")
+    origin = []
+    for op in ops.split(","):
+        if op == "S":
+            origin.append(True)
+        elif op == "F":
+            origin.append(False)
+        elif op[:1] in ("D", "C"):
+            try:
+                i = int(op[1:])
+            except ValueError:
+                continue
+            if 0 <= i < len(origin):
+                origin.append(origin[i])
+    try:
+        return origin[int(t)]
+    except (ValueError, IndexError):
+        return False
 
 
 def main(argv):
@@ -226,6 +250,7 @@ def main(argv):
         for f in rt.get("effect_cases") or []:
             meta[str(f["id"])] = f
     n = 0
+    n_fam = 0
     n_cmd = 0
     cmd_fail = []
     cmd_model, labelled = {}, []
@@ -248,6 +273,35 @@ def main(argv):
                 elif model is not None and impl != model:
                     corr_fail.append({"input": inp, "observed_phases": impl, "model_of_the_session": model})
                 continue
+            if cfg == "plan":
+                # what ReplMain constructed (constructor, demo data) vs the GENERATED replmain_plans through Model/Family.v construction
+                n_cmd += 1
+                argv = inp.split(" :: zygo ", 1)[-1]
+                if spec == "sandboxed" and not impl.startswith("sandboxed"):
+                    cmd_fail.append({"command_line": argv, "tokens": inp.split(" :: ", 1)[0][5:], "observed_construction": impl, "model": model, "specification": "constructed with NewZlispSandbox"})
+                elif model is not None and impl != model:
+                    corr_fail.append({"input": inp, "observed_construction": impl, "model_of_ReplMain (replmain_plans)": model})
+                continue
+            fam_sandboxed = False
+            if cfg == "fam":
+                hist = inp.split(" ", 2)[1]
+                n_fam += 1
+                fam_sandboxed = (spec == "-") if spec is not None else family_origin(hist)
+                if impl.startswith("names:"):
+                    # names with a non-value binding; names that are bound to a registered Go struct type at run time (dynamic
+                    # source GoStructRegistry, process-global) replace a function binding of the same name: taken out of the model's set
+                    inames, _, itypes = impl[6:].partition(";types:")
+                    a = set(x for x in inames.split(",") if x)
+                    ty = set(x for x in itypes.split(",") if x)
+                    if model is not None:
+                        b = set(x for x in model[6:].split(",") if x) if model.startswith("names:") else None
+                        if b is None or a != b - ty:
+                            corr_fail.append({"family_history": hist, "bound_at_run_time_but_not_in_the_model": sorted(a - (b or set()))[:20],
+                                              "in_the_model_but_not_bound_at_run_time": sorted((b or set()) - ty - a)[:20], "model": None if b is not None else model[:80],
+                                              "note": "names with a non-value binding in the target member of the family (Model/Family.v names_of)"})
+                    continue
+                if not fam_sandboxed:
+                    cfg = "famopen"
             if cfg == "cmdline":
                 # the command line of cmd/zygo: observed kind of interpreter vs Model/Cmdline.v
                 n_cmd += 1
@@ -270,11 +324,11 @@ def main(argv):
             if mset and "process" in mset:
                 mset |= ALL_EFFECTS            # a started process (shell) can do anything
             visible = iset - {"stdin_read"}
-            if cfg in SANDBOX_CFGS and visible:
+            if (cfg in SANDBOX_CFGS or (cfg == "fam" and fam_sandboxed)) and visible:
                 m = meta.get(cid, {})
                 prop_fail.append({"id": cid, "cfg": cfg, "input": inp, "observed_effects": sorted(iset), "predicted_by_tables": raw_pred,
                                   "entry": m.get("entry", ""), "kind": m.get("kind", ""), "form": m.get("form", ""), "pre": m.get("pre"), "script": m.get("script"),
-                                  "abs": m.get("abs"), "argv": m.get("argv"), "script_file": m.get("script_file"), "detail": m.get("detail"), "class": m.get("class")})
+                                  "abs": m.get("abs"), "argv": m.get("argv"), "script_file": m.get("script_file"), "hist": m.get("hist"), "detail": m.get("detail"), "class": m.get("class")})
             elif mset is not None and not iset <= mset:
                 corr_fail.append({"input": inp, "observed_effects": sorted(iset), "predicted_by_tables": raw_pred})
     # the harness labels the canary runs of a command line "bin" (sandboxed) or "full" (control): that label
@@ -296,12 +350,13 @@ def main(argv):
         viol_by_entry.setdefault(key, []).append(f)
     def simplest(item):
         fs = item[1]
-        return min((len(f.get("argv") or []), len(f.get("script_file") or ""), len(f["pre"] or []), len(f["script"] or "")) for f in fs)
+        return min((len(f.get("argv") or []), len(f.get("script_file") or ""), len(f.get("hist") or ""), len(f["pre"] or []), len(f["script"] or "")) for f in fs)
     for key, fs in sorted(viol_by_entry.items(), key=lambda it: (simplest(it), str(it[0])))[:8]:
-        fs.sort(key=lambda f: (len(f.get("argv") or []), len(f.get("script_file") or ""), len(f["pre"] or []), f["form"] != "direct", len(f["script"] or "")))
+        fs.sort(key=lambda f: (len(f.get("argv") or []), len(f.get("script_file") or ""), len(f.get("hist") or ""), len(f["pre"] or []), f["form"] != "direct", len(f["script"] or "")))
         f = fs[0]
-        c.violation({"kind": "a script in a sandboxed interpreter reached the outside world" + (" (cmd/zygo run with a sandbox flag: zygo %s)" % " ".join(f["argv"]) if f.get("argv") else ""),
-                     "argv": f.get("argv"), "script_file": f.get("script_file"), "cfg": f["cfg"], "entry": f["entry"], "pre": f["pre"] or [],
+        c.violation({"kind": "a script in a sandboxed interpreter reached the outside world" + (" (cmd/zygo run with a sandbox flag: zygo %s)" % " ".join(f["argv"]) if f.get("argv") else "")
+                             + (" (member of an interpreter family: history %s -- S NewZlispSandbox, F NewZlisp, U<i> StandardSetup, M<i> ImportDemoData, D<i> Duplicate, C<i> Clone, V<i>:n (def n 0), A<i>:n:m (def n m); @target)" % f["hist"] if f.get("hist") else ""),
+                     "hist": f.get("hist"), "argv": f.get("argv"), "script_file": f.get("script_file"), "cfg": f["cfg"], "entry": f["entry"], "pre": f["pre"] or [],
                      "script": f["script"], "abs": f["abs"], "observed_effects": f["observed_effects"], "predicted_by_tables": f["predicted_by_tables"],
                      "detail": f["detail"], "how_it_ended": f["class"], "similar_cases": len(fs),
                      "replay": "bin/check C08 --replay <this file>  (placeholders @SECRET@ @OUT@ @EXISTING@ @PWNED@ @DIR@ are canary paths created by the harness)"})
@@ -379,6 +434,12 @@ def main(argv):
         if not need <= got:
             c.violation({"kind": "the canary harness no longer observes these effect classes in the unrestricted control configuration",
                          "missing": sorted(need - got)}, no_input=True, tag="canary")
+        gotf = seen_effects.get("famopen", set())
+        c.coverage["family_control_effects_observed"] = sorted(gotf)
+        if n_fam and not {"file_read", "process"} <= gotf:
+            c.violation({"kind": "the family canaries no longer observe file_read / process in members of an unrestricted family (through Duplicate / Clone)",
+                         "missing": sorted({"file_read", "process"} - gotf)}, no_input=True, tag="canary-family")
+    c.coverage["family_cases"] = n_fam
     c.coverage["sandbox_effects_observed"] = {k: sorted(v) for k, v in seen_effects.items() if k in SANDBOX_CFGS}
     if rt and rt.get("anomalies"):
         c.coverage["anomalies"] = rt["anomalies"][:10]
